@@ -104,8 +104,8 @@ impl Property for C01 {
     }
     fn budget(&self, tier: Tier) -> (u32, u32) {
         match tier {
-            Tier::Quick => (1200, 4),
-            Tier::Thorough => (12000, 16),
+            Tier::Quick => (4000, 8),
+            Tier::Thorough => (100000, 16),
         }
     }
     fn required_counters(&self) -> Vec<&'static str> {
